@@ -33,24 +33,36 @@ def judge(case):
         return out
     cut = case["cut"]
     core.require(cut < len(payload) and cut * 8 < nbits, "C06 cut")
-    _judge_cut(identity, payload, cut, out)
+    _judge_cut(identity, payload, cut, out, ("bytes", "view-slice", "bytearray", "view-slice-ba"))
     _judge_stale_frame(identity, payload, cut, out)
     return out
 
 
-def _judge_cut(identity, payload, cut, out):
+def _judge_cut(identity, payload, cut, out, kinds=("bytes",)):
+    """
+    The truncated payload is handed over as each of the given kinds of bytes-like object (all of
+    which the constructor accepts for complete payloads): a bytes object, a bytearray, and a
+    memoryview that is a SLICE of the complete payload's buffer (the cut-off bytes are still in
+    memory behind it, but they are not part of the payload).
+    """
     from pyrtcm import RTCMMessage  # pylint: disable=import-outside-toplevel
 
-    try:
-        msg = RTCMMessage(payload=payload[:cut])
-    except Exception as err:  # pylint: disable=broad-except
-        out.obs = (identity[:4], type(err).__name__)
+    for kind in kinds:
+        arg = {"bytes": lambda: payload[:cut], "bytearray": lambda: bytearray(payload[:cut]),
+               "view-slice": lambda: memoryview(payload)[:cut],
+               "view-slice-ba": lambda: memoryview(bytearray(payload) + b"\xff" * 8)[:cut]}[kind]()
+        try:
+            msg = RTCMMessage(payload=arg)
+        except Exception as err:  # pylint: disable=broad-except
+            out.obs = (identity[:4], type(err).__name__)
+            continue
+        out.obs = (identity, "accepted")
+        pub = [k for k in vars(msg) if not k.startswith("_")]
+        out.bad("truncated-accepted" + ("" if kind == "bytes" else ":" + kind),
+                f"{identity}: payload of {len(payload)} bytes cut to {cut} bytes, handed over as {kind}, was "
+                f"accepted ({len(pub)} attributes, last {pub[-1] if pub else None}); payload "
+                f"{payload[:cut].hex()[:100]}")
         return
-    out.obs = (identity, "accepted")
-    pub = [k for k in vars(msg) if not k.startswith("_")]
-    out.bad("truncated-accepted",
-            f"{identity}: payload of {len(payload)} bytes cut to {cut} bytes was accepted "
-            f"({len(pub)} attributes, last {pub[-1] if pub else None}); payload {payload[:cut].hex()[:100]}")
 
 
 def _judge_stale_frame(identity, payload, cut, out):
@@ -112,7 +124,10 @@ def _work(item):
                 st.extra["payloads_with_sampled_cuts"] = st.extra.get("payloads_with_sampled_cuts", 0) + 1
             for k, cut in enumerate(cuts):
                 out = core.Outcome()
-                _judge_cut(identity, payload, cut, out)
+                near = len(payload) - cut <= 4
+                _judge_cut(identity, payload, cut, out,
+                           ("bytes", "view-slice", "bytearray", "view-slice-ba") if near or k % 8 == 0
+                           else ("bytes", "view-slice") if k % 2 == 0 else ("bytes",))
                 if len(payload) - cut <= 4 or k % 8 == 0:
                     _judge_stale_frame(identity, payload, cut, out)
                     st.extra["stale_length_frames"] = st.extra.get("stale_length_frames", 0) + 1
